@@ -352,5 +352,4 @@ Definition VmScope (cs : list (list nat)) (bs : N -> bool) (e : expr) (p : prog)
   valid_chars cs /\ (N.of_nat (length (concat cs)) < usize_max)%N /\
   compile bs (wrap e) = inr p /\ oke true 0 (wrap e) /\ refs_ok True (refd bs) (wrap e) /\ kok true e.
 
-(* executable form *)
-Definition vm_scope_b (bs : N -> bool) (e : expr) : bool := Scope.in_scope_all bs e && kokb true e.
+(* executable form: Scope.vm_scope_b *)
